@@ -673,7 +673,8 @@ class Body:
             if 'fn' in o:
                 return ('fn', callee_name(o['fn']), o['fn'].get('rid') or o['fn']['id'])
             if o.get('promoted') is not None:
-                pb = self.prog.bodies.get('%s::{promoted#%d}' % (self.id, o['promoted']))
+                # `powner`: set by the inlined view for constants promoted out of a spliced-in helper
+                pb = self.prog.bodies.get('%s::{promoted#%d}' % (o.get('powner') or self.id, o['promoted']))
                 if pb is not None and pb is not self:
                     try:
                         return pb.local_term(0)
@@ -1011,12 +1012,14 @@ class Program:
                 self.impls.append(im)
         self._callgraph = None
         self._trait_impl_methods = None
+        self.asked = set()      # normalised paths of the functions rules asked for by name (anchors); see engine/inline.py
 
     # -- lookup ----------------------------------------------------------------
     def body(self, path, nth=None):
         """Body by normalised pretty path (exact), e.g.
         'ntp_proto::source::NtpSource::handle_incoming'. Closures: append '::{closure#0}'."""
         bs = [b for b in self.by_npath.get(path, []) if b.raw['promoted'] is None]
+        self.asked.add(path)
         if not bs:
             raise AnchorMissing('function not found: %s' % path)
         if len(bs) > 1:
@@ -1026,11 +1029,14 @@ class Program:
         return bs[0]
 
     def bodies_matching(self, regex):
-        return [b for b in self.bodies.values() if b.raw['promoted'] is None and re.search(regex, b.npath)]
+        out = [b for b in self.bodies.values() if b.raw['promoted'] is None and re.search(regex, b.npath)]
+        self.asked.update(b.npath for b in out)
+        return out
 
     def body_full(self, full_path):
         """Body by its full pretty path including generic arguments (for impls that differ only there)."""
         bs = [b for b in self.bodies.values() if b.raw['promoted'] is None and b.path == full_path]
+        self.asked.update(b.npath for b in bs)
         if len(bs) != 1:
             raise AnchorMissing('function not found (full path): %s (%d bodies)' % (full_path, len(bs)))
         return bs[0]
@@ -1139,6 +1145,9 @@ class Program:
     def callers_of(self, fn_id_or_npath):
         """Bodies containing a call/reference to the function."""
         ids = set()
+        self.asked.add(fn_id_or_npath)
+        if fn_id_or_npath in self.bodies:
+            self.asked.add(self.bodies[fn_id_or_npath].npath)
         if fn_id_or_npath in self.bodies or fn_id_or_npath in self.fns:
             ids.add(fn_id_or_npath)
         for f in self.fns_by_npath.get(fn_id_or_npath, []):
